@@ -166,6 +166,8 @@ class Spec:
                 "rx:mfs:%d" % FRAME_LIMITS[3], "rx:ping", "rx:settings", "rx:settings-empty",
                 # the same received frames while an earlier call's output has not been collected yet: replies are APPENDED
                 "pend+rx:ping", "pend+rx:settings",
+                # a connection error while an earlier call's output has not been collected: that output stays, the GOAWAY follows it
+                "pend+rx:bad", "rx:bad",
                 # our own MAX_FRAME_SIZE raised and acknowledged: it bounds what we RECEIVE, never what we send
                 "settings:mfs", "rx:ack",
                 # a partial read, the buffer discarded, a new frame queued: the next read returns that frame, whole
@@ -249,6 +251,15 @@ class Spec:
                     c.ping(b"PENDING!")          # queued, not collected
                 except Exception:  # noqa: BLE001
                     return Step("pend-not-possible", viols, prune=True)
+            if parts[1] == "bad":
+                o = H.recv(c, pre + wire.settings([(wire.S_ENABLE_PUSH, 2)]).serialize())
+                st.dead = True
+                kinds = [(f.type, f.f.get("opaque")) for f in o.frames]
+                want = ([(wire.PING, b"PENDING!")] if pend else []) + [(wire.GOAWAY, None)]
+                if o.kind != "raise" or o.wire_error or kinds != want:
+                    bad("output-around-connection-error", "invalid SETTINGS%s -> %s %s" % (
+                        " with a PING queued before it" if pend else "", o.brief(), o.wire_error or ""), pending=pend)
+                return Step("rx-bad", viols, prune=not viols)
             if parts[1] == "ack":
                 o = H.recv(c, pre + wire.settings([], ack=True).serialize())
                 exp_ack = False
